@@ -312,7 +312,8 @@ def valet_exchange(m1, m2, cuts):
         cs.send(piece)
         passes(1)
     passes(4)
-    out = bytes(s2c.total)
+    import re
+    out = re.sub(rb"\r\nDate: [^\r]*", b"\r\nDate: -", bytes(s2c.total))      # (the wall clock may tick between two runs)
     try:
         valet.close()
     except Exception:        # noqa
